@@ -43,7 +43,7 @@
   updateOne/Many (+ upsert), findOneAndReplace/Update, bulkWrite, expire — with the exact missing
   lemma for each.
 -/
-import Lungo.Proofs.SeqReplace
+import Lungo.Proofs.SeqBulk
 import Lungo.Props.C15
 import Lungo.Props.C07
 namespace Lungo.C01
@@ -199,6 +199,17 @@ theorem refines_findOneAndReplace (s : Sys) (h : Handle) (q repl : Doc) (sort pr
     Refines sch s (.findOneAndReplace h q repl sort proj upsert after) oids :=
   SeqRef.refines_findOneAndReplace s h q repl sort proj upsert after oids ⟨hi, fun _ => hu⟩ ok hw
 
+/-- bulkWrite: the operations in order, each with the semantics of the single call; ordered stops
+    at the first failing one, unordered continues; counts are sums over the successful operations,
+    upserted ids and errors are keyed by operation index; a bulk that changed nothing leaves the
+    database as it was. `BulkCallOk`: every operation is well-formed (as for the single calls) in the
+    Spec state in which it is executed, and those states hold Go values. -/
+theorem refines_bulkWrite (s : Sys) (h : Handle) (models : List BulkModel) (ordered : Bool) (oids : List V)
+    (hi : SysInv sch s) (hu : UniqueOkCat sch s.catalog)
+    (hw : BulkCallOk (acOf sch) (abs s.catalog) h ordered oids models) :
+    Refines sch s (.bulkWrite h models ordered) oids :=
+  SeqRef.refines_bulkWrite s h models ordered oids ⟨hi, fun _ => hu⟩ hw
+
 theorem refines_createCollection (s : Sys) (h : Handle) (oids : List V) :
     Refines sch s (.createCollection h) oids := SeqRef.refines_createCollection s h oids
 
@@ -229,6 +240,7 @@ theorem refines_dropIndexByKey (s : Sys) (h : Handle) (key : Doc) (oids : List V
 def covered : Call → Bool
   | .insertOne .. | .insertMany .. | .find .. | .findOne .. | .count .. | .estCount _ | .distinct ..
   | .updateOne .. | .updateMany .. | .findOneAndUpdate .. | .replaceOne .. | .findOneAndReplace ..
+  | .bulkWrite ..
   | .deleteOne .. | .deleteMany .. | .findOneAndDelete .. | .createIndex .. | .dropIndex .. | .dropAllIndexes _
   | .dropIndexByKey .. | .listIndexes _ | .createCollection _ | .dropCollection _ | .dropDatabase _
   | .listCollections .. | .listDatabases _ => true
@@ -252,6 +264,7 @@ def WF (sch : SchemaEval) (db : SeqDB) (oids : List V) : Call → Prop
   | .findOneAndUpdate h q u _ _ upsert _ fs => UpdateOk (acOf sch) db h q u upsert fs oids
   | .replaceOne h q repl upsert => ReplaceOk (acOf sch) db h q repl upsert oids
   | .findOneAndReplace h q repl _ _ upsert _ => ReplaceOk (acOf sch) db h q repl upsert oids
+  | .bulkWrite h models ordered => BulkCallOk (acOf sch) db h ordered oids models
   | _ => True
 
 /-- **api_refines** (the proved subset): in a state satisfying the C15 invariant and C07, whose
@@ -289,7 +302,7 @@ theorem api_refines_partial {s : Sys} {c : Call} {oids : List V} (hi : SysInv sc
     exact refines_findOneAndReplace s h q repl sort proj upsert after oids hi hu ok hw
   | findOneAndUpdate h q u sort proj upsert after fs =>
     exact refines_findOneAndUpdate s h q u sort proj upsert after fs oids hi hu ok hw
-  | bulkWrite _ _ _ => cases hc
+  | bulkWrite h models ordered => exact refines_bulkWrite s h models ordered oids hi hu hw
   | createIndex h name cfg => exact refines_createIndex s h name cfg oids hi ok
   | expire _ => cases hc
 
